@@ -136,7 +136,29 @@ def run_delivery(desc, out):
     if raise_run:
         case["config"] = dict(case.get("config", {}), raise_errors=True)
         case["strategies"][0]["raise_at"] = [["book", 2]]
+    two_filters = desc["idx"] % 7 == 5 and not raise_run and len(case["strategies"]) > 1
+    if two_filters:
+        # each strategy names its own listener filter (falsy values are filters too): what each is handed is what ITS filter lets through
+        frng = simgen.mk_rng(desc["seed"], desc["idx"], 147)
+        pairs = (({"inplay": False}, {}), ({}, {"inplay": False}), ({"inplay": True}, {"inplay": False}), ({"seconds_to_start": 30}, {}), ({"max_inplay_seconds": 2}, {"inplay": False}))
+        ka, kb = frng.choice(pairs)
+        case["listener_kwargs"] = {}
+        case["strategies"][0]["listener_kwargs"] = dict(ka)
+        case["strategies"][1]["listener_kwargs"] = dict(kb)
     tr = simrun.run_case(case)
+    if two_filters:
+        if O.abort_violation(tr, out):
+            return
+        for st_, kw_ in zip(tr.strategies[:2], (ka, kb)):
+            for m_, sn_ in snaps.items():
+                exp_ = [p_[1] for p_ in predict(sn_, kw_) if p_[2] != "CLOSED"]
+                got_ = [r_[2] for r_ in st_.received if r_[0] == "book" and r_[1] == m_]
+                out.rule("delivery")
+                if got_ != exp_:
+                    i_ = next((j for j, (a_, b_) in enumerate(zip(got_, exp_)) if a_ != b_), min(len(got_), len(exp_)))
+                    out.v("delivered-updates-differ-from-prediction", {"filters": ",".join(sorted(kw_)) or "-", "event_processing": bool(case.get("event_processing")), "kind": "per-strategy", "other_filters": ",".join(sorted(kb if kw_ is ka else ka)) or "-"}, strategy=st_.name, market=m_, index=i_, n_got=len(got_), n_expected=len(exp_))
+        out.d("c14two:%s:%s" % (sorted(ka), sorted(kb)))
+        return
     kw = case["listener_kwargs"]
     out.rule("clock-restored")
     if not tr.datetime_restored:
